@@ -9,8 +9,10 @@ clauses
   T0-stored / T0-codata     step-0 /data/thermo/T equals Temp (1e-10 rel; exactly 0 at 0 K) and the temperature recomputed
                             from the step-0 /velocities row with CODATA constants and the documented n_dof
                             (Basic, undamped XL-BOMD: 3N-{0,3,6}; Langevin, damped XL-BOMD: 3N) equals Temp to 1e-6
-  n_dof-rule                live md.n_dof equals that documented count
-  n_dof-positive            that count is > 0 (else T is undefined)
+  n_dof-rule                live md.n_dof equals that documented count (for linear molecules under 'angular' the physically
+                            right 3N-5 is accepted as well as the documented 3N-6)
+  n_dof-positive            the count in force is > 0 (else T is undefined); mech ndof-zero-diatomic-angular when a molecule
+                            with <= 2 atoms meets ('angular', N) in an engine that subtracts the constraints
   P0 / L0                   drawn velocities: |P| <= f sum m|v|, |L| <= f sum m|r||v| at step 0, f = 1e-12 + 16 eps_mach cond(I) at the geometry of the row
                             (momenta cannot be removed more accurately than the conditioning of the inertia tensor allows)
   padding-velocity          padding rows of molecule.velocities exactly zero after initialize and after the run
